@@ -159,6 +159,41 @@ def desc_term(desc):
             + " " + clist([enum(e) for e in desc["enums"]], str, "enum_def") + ")")
 
 
+# ------------------------------------------------------------------ compound fields over class hierarchies
+def hierarchy_models(r, n):
+    """Root = one compound (Elements) field whose choices are classes of a hierarchy
+    Shape <- Circle <- Ring, Shape <- Square, plus an unrelated Other: every listing order (base
+    first, derived first), partial listings (values of unlisted subclasses fall back to the first
+    choice they derive from, with xsi:type), unrelated values (SerializerError), list and scalar."""
+    out = []
+    A = lambda name, tp="int": F(name, "Attribute", ("prim", tp), optional=True)   # noqa: E731
+    hier = [("Shape", None, [A("label", "str")]), ("Circle", "Shape", [A("radius")]), ("Ring", "Circle", [A("inner")]),
+            ("Square", "Shape", [A("side")]), ("Other", None, [A("z")])]
+    for _ in range(n):
+        listed = r.sample(["Shape", "Circle", "Ring", "Square", "Other"], r.choice([1, 2, 2, 3, 3, 4]))
+        r.shuffle(listed)
+        if r.random() < 0.4 and "Shape" in listed and "Circle" in listed:      # the order the docs' example uses: base first
+            listed.sort(key=["Shape", "Circle", "Ring", "Square", "Other"].index)
+        is_list = r.random() < 0.75
+        root = {"name": "Drawing", "meta": r.choice([{}, {"namespace": "urn:shapes"}, {"name": "drawing", "namespace": "urn:shapes"}]),
+                "base": None, "fields": [{"name": "items", "kind": "Elements", "list": is_list,
+                                          "choices": [{"name": c.lower(), "type": ("class", c)} for c in listed]}]}
+        classes = [root] + [{"name": n_, "meta": r.choice([{}, {}, {"namespace": "urn:shapes"}]), "base": b, "fields": fs} for n_, b, fs in hier]
+        desc = {"module_ns": r.choice([None, "urn:shapes"]), "enums": [], "root": "Drawing", "slices": ["hierarchy"], "classes": classes}
+
+        def inst(cn):
+            c = genmodels.find_class(desc, cn)
+            return {"__cls__": cn, "fields": {f["name"]: ({"__p__": "str", "v": "l"} if f["type"][1] == "str" else {"__p__": "int", "v": r.randint(0, 9)})
+                                              if r.random() < 0.7 else None for f in genmodels.all_fields(desc, c)}}
+        cases = []
+        for _ in range(4):
+            pool = ["Shape", "Circle", "Ring", "Square"] + (["Other"] if r.random() < 0.3 else [])
+            items = [inst(r.choice(pool)) for _ in range(r.choice([1, 2, 3, 4]))] if is_list else inst(r.choice(pool))
+            cases.append({"recipe": {"__cls__": "Drawing", "fields": {"items": items}}, "ignore": False, "derived": None, "hostile": False})
+        out.append({"desc": desc, "src": genmodels.render_source(desc), "classes": [c["name"] for c in classes], "enums": [], "cases": cases})
+    return out
+
+
 def chunks(xs, n):
     k = max(1, (len(xs) + n - 1) // n)
     return [xs[i:i + k] for i in range(0, len(xs), k)]
@@ -208,7 +243,7 @@ def coq_multi(tag, imports, defs, blocks, timeout=900):
     return res
 
 
-FC_CHECKS = ["fc_agree", "fc_modelled", "fc_in_guard", "fc_oracle", "fc_theorem", "fc_oracle_raw", "fc_in_theorem_guard"]
+FC_CHECKS = ["oracle_compound_names", "fc_agree", "fc_modelled", "fc_in_guard", "fc_oracle", "fc_theorem", "fc_oracle_raw", "fc_in_theorem_guard"]
 
 
 def evaluate(ck, models, res, tag=None):
@@ -332,6 +367,7 @@ def run(ck: Check):
         models.append({"desc": desc, "src": genmodels.render_source(desc), "classes": [c["name"] for c in desc["classes"]],
                        "enums": [], "cases": [{"recipe": rec, "ignore": False, "derived": None, "hostile": False}],
                        "witness": cls})
+    models += hierarchy_models(ck.rng, ck.n(40, 600))
     models += gen_models(ck, n_models, per_model)
     res = run_impl("impl_eventgen.py", {"models": [{k: m[k] for k in ("src", "classes", "enums", "cases")} for m in models]},
                    timeout=1500)
@@ -348,6 +384,9 @@ def run(ck: Check):
     for mi, ci in [x for x in v["fc_agree"]][:4]:
         ck.failure("corr-eventgen", "EventGen model and EventGenerator disagree on a generated (model, instance)",
                    describe(models, res, mi, ci, f"c03b_dbg_{mi}_{ci}", "model"))
+    for mi, ci in v["oracle_compound_names"][:3]:
+        ck.failure("compound-choice-name", "a compound item is not written under the choice that lists its class (exact class first, then first base class)",
+                   describe(models, res, mi, ci, f"c03b_cdbg_{mi}_{ci}", "model"))
     # 2. correspondence Builder <-> XmlContext.build
     for mi in v["agree_builder"][:3]:
         rm = res["models"][mi]
